@@ -395,6 +395,12 @@ BinMuts(lf, last) == BinStructural(lf, last) \cup BinValue(lf)
 ArmorMuts(lf, last) ==
   {Mu("trunc_before", ""), Mu("delete", ""), Mu("dup", "")}
   \cup (IF lf.n \in {"hdr", "ftr"} THEN {Mu("case", "lower"), Mu("nonutf8", ""), Mu("trunc_inside", ""), Mu("char", "ws")} ELSE {})
+  \* filler: the frames tolerate runs of discardable characters (blank, tab, CR, LF, '>').  A run of k of them
+  \* AHEAD of the header (a pasted, quoted message), an input that is NOTHING BUT filler, and a filler run followed
+  \* by a cut header - with lengths around the size bound of deser_slatepack (min_size = 15 = Len(header) + 1)
+  \cup (IF lf.n = "hdr" THEN {Mu("pad", "1"), Mu("pad", "14"), Mu("pad", "15"), Mu("pad", "64"),
+                              Mu("padonly", "14"), Mu("padonly", "15"), Mu("padonly", "16"), Mu("padonly", "64"),
+                              Mu("padcut", "15"), Mu("padcut", "20")} ELSE {})
   \cup (IF lf.n = "body" THEN {Mu("body", "empty"), Mu("body", "short"), Mu("char", "bad58"), Mu("char", "flip"),
                                Mu("char", "ws"), Mu("nonutf8", ""), Mu("trunc_inside", "")} ELSE {})
   \cup (IF last THEN {Mu("extend", "1"), Mu("extend", "64"), Mu("extend", "max")} ELSE {})
@@ -468,6 +474,7 @@ ModelSz(ch, k, j, lf, mu) ==
   IF k = 1 /\ mu.m = "extend" /\ mu.a = "max" THEN "big"
   ELSE IF k = 1 /\ Chains[ch][1] = "armor" /\ mu.m = "trunc_before" /\ lf.n \in {"hdr", "dot1"} THEN "small"
   ELSE IF k = 1 /\ mu.m = "empty" THEN "small"
+  ELSE IF k = 1 /\ mu.m = "padonly" /\ mu.a = "14" THEN "small"
   ELSE IF k = 1 /\ mu.m = "doc" /\ mu.a = "empty" THEN "small"
   ELSE IF k = 1 /\ Chains[ch][1] = "packbin" /\ mu.m \in {"trunc_before", "trunc_inside"} /\ j <= 5 THEN "small"
   ELSE "ok"
@@ -600,6 +607,9 @@ ArmorEff(lf, mu) ==
             [] OTHER -> E("cont"))
     [] mu.m = "case" -> E("err")
     [] mu.m = "nonutf8" -> E("err")
+    \* deser_slatepack looks for the header in the very first bytes: a message with filler ahead of it is not
+    \* taken for armor, is neither a binary nor a JSON slatepack, and is refused (SlatepackArmor::decode itself would accept it)
+    [] mu.m \in {"pad", "padonly", "padcut"} -> E("err")
     [] mu.m = "char" /\ mu.a = "ws" -> IF n = "body" THEN E("cont") ELSE E("err")    \* whitespace inside a frame word breaks the regex
     [] mu.m = "char" -> E("err")                                                    \* not base58 / check mismatch
     [] mu.m = "body" -> E("err")                                                    \* fewer than 4 decoded bytes
